@@ -23,6 +23,7 @@ package limit
 
 import (
 	"bufio"
+	"context"
 	"fmt"
 	"math/rand"
 	"net"
@@ -46,7 +47,14 @@ type c08Srv struct {
 	pings    atomic.Int64
 	rejected atomic.Int64 // commands answered with the injected error
 	errMode  atomic.Bool
+	garbage  atomic.Int32 // answer EVAL with a value the scripts never return
 }
+
+const (
+	c08GarbageInt  = 1 // :7
+	c08GarbageBulk = 2 // "$1 x"
+	c08GarbageOK   = 3 // +OK
+)
 
 // c08Foreign records limiter keys whose EVAL arrived at a server of another
 // scenario. That happens when a closed miniredis' port is handed by the kernel
@@ -107,6 +115,18 @@ func (s *c08Srv) install() {
 		if s.errMode.Load() {
 			s.rejected.Add(1)
 			c.WriteError("ERR c08 injected failure")
+			return true
+		}
+		if g := s.garbage.Load(); g != 0 && (cmd == "EVAL" || cmd == "EVALSHA") {
+			s.rejected.Add(1)
+			switch g {
+			case c08GarbageInt:
+				c.WriteInt(7)
+			case c08GarbageBulk:
+				c.WriteBulk("x")
+			default:
+				c.WriteOK()
+			}
 			return true
 		}
 		switch cmd {
@@ -425,7 +445,7 @@ func TestVerifC08TokenSeq(t *testing.T) {
 	var next atomic.Int64
 	for w := 0; w < workers; w++ {
 		wg.Add(1)
-		go func() {
+		go func(w int) {
 			defer wg.Done()
 			srv, err := newC08Srv("{c08s")
 			if err != nil {
@@ -434,6 +454,10 @@ func TestVerifC08TokenSeq(t *testing.T) {
 			}
 			defer srv.mr.Close()
 			store := redis.New(srv.mr.Addr())
+			if w == 0 {
+				// the same limiter through the cluster client ({key} hash tags keep both keys in one slot)
+				store.Type = redis.ClusterType
+			}
 			for {
 				i := int(next.Add(1)) - 1
 				if i >= n {
@@ -442,6 +466,7 @@ func TestVerifC08TokenSeq(t *testing.T) {
 				if !m.Only(i) {
 					continue
 				}
+				m.Count("token.scenarios.store-type-"+store.Type, 1)
 				r := m.Rand("tseq", i)
 				sc := c08GenTokenSeq(r, vk.N(150, 300))
 				runC08TokenSeq(m, i, sc, srv, store)
@@ -450,7 +475,7 @@ func TestVerifC08TokenSeq(t *testing.T) {
 					m.Progress()
 				}
 			}
-		}()
+		}(w)
 	}
 	wg.Wait()
 }
@@ -469,6 +494,10 @@ type c08SScenario struct {
 	Shared bool       `json:"shared_store"`
 	Base   int64      `json:"base_unix"`
 	Steps  []c08TStep `json:"steps"`
+	// Ctx[i] for step i: "" AllowN | "bg" AllowNCtx(Background) | "cancelled" |
+	// "expired" (deadline in the past; at most two per scenario, the client's
+	// breaker books those as failures)
+	Ctx []string `json:"ctx"`
 }
 
 func c08GenSustained(r *rand.Rand, calls int) c08SScenario {
@@ -492,6 +521,19 @@ func c08GenSustained(r *rand.Rand, calls int) c08SScenario {
 			st.Adv = 1000
 		}
 		sc.Steps = append(sc.Steps, st)
+	}
+	sc.Ctx = make([]string, len(sc.Steps))
+	expired := 0
+	for i := range sc.Ctx {
+		switch x := r.Intn(100); {
+		case x < 20:
+			sc.Ctx[i] = "bg"
+		case x < 26 && i > 20:
+			sc.Ctx[i] = "cancelled"
+		case x < 28 && i > 20 && expired < 2:
+			sc.Ctx[i] = "expired"
+			expired++
+		}
 	}
 	return sc
 }
@@ -522,6 +564,10 @@ func runC08Sustained(m *vk.M, idx int, sc c08SScenario) {
 	clock := time.Unix(sc.Base, 0)
 	var adm []c08Adm
 	grants, denies, run, maxRun := 0, 0, 0, 0
+	cancelled, cancel := context.WithCancel(context.Background())
+	cancel()
+	expired, cancel2 := context.WithDeadline(context.Background(), time.Now().Add(-time.Hour))
+	defer cancel2()
 	for si, st := range sc.Steps {
 		if st.Adv > 0 {
 			d := time.Duration(st.Adv) * time.Millisecond
@@ -532,15 +578,32 @@ func runC08Sustained(m *vk.M, idx int, sc c08SScenario) {
 		class := c08Class(ref, sec, st.N)
 		e0 := srv.evals.Load()
 		t0 := time.Now()
-		got := lims[st.L].AllowN(clock, int(st.N))
+		var got bool
+		how := sc.Ctx[si]
+		switch how {
+		case "bg":
+			got = lims[st.L].AllowNCtx(context.Background(), clock, int(st.N))
+		case "cancelled":
+			got = lims[st.L].AllowNCtx(cancelled, clock, int(st.N))
+		case "expired":
+			got = lims[st.L].AllowNCtx(expired, clock, int(st.N))
+		default:
+			how = "plain"
+			got = lims[st.L].AllowN(clock, int(st.N))
+		}
 		wall := time.Since(t0)
 		e := srv.evals.Load() - e0
-		m.Count("sustained.allowN", 1)
+		m.Count("sustained.allowN."+how, 1)
 		ref.refill(sec)
 		avail := ref.tokens
+		if e == 0 && !got && (how == "cancelled" || how == "expired") {
+			// a request given up by its caller: not sent, not granted, nothing consumed
+			m.Count("sustained.ctx-"+how+"-denied-unsent", 1)
+			continue
+		}
 		if e != 1 {
 			if e == 0 && wall < c08FastCall && !c08Misrouted(key) && got && st.N > avail {
-				m.Violate("C08:token:sustained:granted-over-quota-without-redis-command", desc,
+				m.Violate("C08:token:sustained:granted-over-quota-without-redis-command:"+how, desc,
 					"step %d (rate %d, burst %d, %d limiters on one key): AllowN(sec=%d, n=%d) was granted in %v without any script execution although the server is up and was never down; the bucket holds %d tokens at that second; %d grants and %d denials so far, the last %d calls in a row denied",
 					si, sc.Rate, sc.Burst, sc.Lims, sec, st.N, wall.Round(time.Microsecond), avail, grants, denies, run)
 				return
@@ -611,6 +674,74 @@ func TestVerifC08TokenSustained(t *testing.T) {
 		}()
 	}
 	wg.Wait()
+}
+
+// Allow() and AllowCtx() take the time from time.Now: no virtual clock. One-sided
+// on the wall clock: all call seconds lie in [sec0, sec1] read around the batch,
+// so at most burst + rate*(sec1-sec0) may be granted; and a bucket that starts
+// full grants at least the first min(calls, burst) single-token requests.
+func TestVerifC08TokenAllowRealClock(t *testing.T) {
+	m := vk.New(t, "C08", "Allow()/AllowCtx() (time.Now): granted <= burst + rate*(seconds spanned by the batch), granted >= min(calls, burst) on a fresh key; healthy Redis")
+	defer m.Done()
+	defer c08Wall(m, time.Now())
+	n := vk.N(8, 150)
+	for i := 0; i < n; i++ {
+		if !m.Only(i) {
+			continue
+		}
+		r := m.Rand("allow-real", i)
+		rate := int64(1 + r.Intn(5))
+		burst := (rate+1)/2 + int64(r.Intn(12))
+		calls := int(burst) + 15 + r.Intn(40)
+		useCtx := r.Intn(2) == 0
+		desc := fmt.Sprintf("case=%d;{\"rate\":%d,\"burst\":%d,\"calls\":%d,\"allowctx\":%v}", i, rate, burst, calls, useCtx)
+		key := fmt.Sprintf("c08w%d", i)
+		srv, err := newC08Srv("{" + key + "}")
+		if err != nil {
+			m.Inconclusive("miniredis: %v", err)
+			return
+		}
+		tl := NewTokenLimiter(int(rate), int(burst), redis.New(srv.mr.Addr()), key)
+		sec0 := time.Now().Unix()
+		e0 := srv.evals.Load()
+		granted := int64(0)
+		for k := 0; k < calls; k++ {
+			var g bool
+			if useCtx {
+				g = tl.AllowCtx(context.Background())
+			} else {
+				g = tl.Allow()
+			}
+			if g {
+				granted++
+			}
+		}
+		sec1 := time.Now().Unix()
+		e := srv.evals.Load() - e0
+		srv.mr.Close()
+		m.Count("allow-real.calls", int64(calls))
+		m.Count("allow-real.granted", granted)
+		if e != int64(calls) || c08Misrouted(key) {
+			m.Count("allow-real.abandoned", 1)
+			continue
+		}
+		form := "Allow"
+		if useCtx {
+			form = "AllowCtx"
+		}
+		if bound := burst + rate*(sec1-sec0); granted > bound {
+			m.Violate("C08:token:allow-realclock:over-admission:"+form, desc, "%d %s() calls between wall second %d and %d, all answered by Redis: %d granted, bound burst+rate*t = %d (rate %d, burst %d)", calls, form, sec0, sec1, granted, bound, rate, burst)
+			continue
+		}
+		if granted < burst {
+			m.Violate("C08:token:allow-realclock:under-admission:"+form, desc, "%d %s() calls on a fresh key, all answered by Redis: only %d granted although the bucket starts with burst=%d tokens", calls, form, granted, burst)
+			continue
+		}
+		m.Case(vk.Digest(rate, burst, calls, useCtx, granted), int64(calls) > granted)
+		if m.WantSample() {
+			m.Sample(map[string]any{"case": i, "form": form, "rate": rate, "burst": burst, "calls": calls, "granted": granted, "wall_seconds_spanned": sec1 - sec0})
+		}
+	}
 }
 
 // the same under concurrent callers (-race): the tokens granted in one caller
@@ -761,8 +892,11 @@ func c08GenOutage(r *rand.Rand) c08OScenario {
 	sc.Up = calls(8 + r.Intn(20))
 	for o, no := 0, 1+r.Intn(3); o < no; o++ {
 		f := "close"
-		if r.Intn(10) < 3 {
+		switch x := r.Intn(20); {
+		case x < 5:
 			f = "error"
+		case x < 8:
+			f = "garbage" // EVAL answered with a string instead of the script's boolean
 		}
 		sc.Outages = append(sc.Outages, c08Outage{Fault: f, Down: calls(15 + r.Intn(50)), Up: calls(8 + r.Intn(25))})
 	}
@@ -1043,9 +1177,12 @@ func runC08Outage(m *vk.M, idx int, sc c08OScenario) {
 	returned := 0
 	for _, o := range sc.Outages {
 		x.fault = o.Fault
-		if o.Fault == "close" {
+		switch o.Fault {
+		case "close":
 			srv.mr.Close()
-		} else {
+		case "garbage":
+			srv.garbage.Store(c08GarbageBulk + int32(idx%2))
+		default:
 			srv.errMode.Store(true)
 		}
 		m.Count("outage.fault."+o.Fault, 1)
@@ -1075,6 +1212,7 @@ func runC08Outage(m *vk.M, idx int, sc c08OScenario) {
 			srv.install()
 		} else {
 			srv.errMode.Store(false)
+			srv.garbage.Store(0)
 		}
 		if !x.waitReturn() {
 			return
